@@ -10,6 +10,7 @@ Open Scope Z_scope.
 Definition x_const (g : Z) : Z := g.
 Definition x_argval (f a g : Z) : Z := 1000000 + a.
 Definition x_accval (f a g : Z) (old : option Z) : Z := match old with Some v => v + 1 | None => 2000000 end.
+Definition x_mval (g a : Z) : Z := 3000000 + a.
 Definition x_src (s : @rsrc Z) : sx :=
   match s with
   | NoDraw => L [I 0]
@@ -24,13 +25,13 @@ Definition x_body (f a : Z) (v : list (option Z)) (s : @rsrc Z) : sx :=
 Definition x_next (f a : Z) (s : @rsrc Z) (r : Z) : Z :=
   match s with Seeded z => 10000 * (z + 1) + a | _ => 2 * r + 1 end.
 
-Definition x_step := step Z Z sx Z sigs x_const x_argval x_accval x_body x_next.
+Definition x_step := step Z Z sx Z sigs x_const x_argval x_accval x_mval Z.eqb x_body x_next.
 
-Definition x_filled (w : world Z Z) : list Z :=
+Definition x_filled (w : world Z Z Z) : list Z :=
   filter (fun g => match cache w g with Some _ => true | None => false end)
          (map Z.of_nat (seq 0 (Z.to_nat n_globals))).
 
-Fixpoint x_trace (w : world Z Z) (h : list (Z * Z)) : list sx :=
+Fixpoint x_trace (w : world Z Z Z) (h : list (Z * Z)) : list sx :=
   match h with
   | [] => []
   | c :: r =>
@@ -43,16 +44,16 @@ Fixpoint x_trace (w : world Z Z) (h : list (Z * Z)) : list sx :=
 
 (* (r0 ((f a) ...)) -> per call: (seen filled may_touch_rng rng_state) *)
 Definition entry_run (x : sx) : sx :=
-  L (x_trace (init Z Z (as_Z (arg 0 x))) (as_pairs (arg 1 x))).
+  L (x_trace (init Z Z Z (as_Z (arg 0 x))) (as_pairs (arg 1 x))).
 
 (* (r0 r0' history (f a)) -> is the result of the call after the history the result in a fresh world? *)
 Definition entry_hi (x : sx) : sx :=
   let h := as_pairs (arg 2 x) in
   let c := as_pair (arg 3 x) in
-  of_bool (sx_eqb (result_after Z Z sx Z sigs x_const x_argval x_accval x_body x_next (as_Z (arg 0 x)) h c)
-                  (result_after Z Z sx Z sigs x_const x_argval x_accval x_body x_next (as_Z (arg 1 x)) [] c)).
+  of_bool (sx_eqb (result_after Z Z sx Z sigs x_const x_argval x_accval x_mval Z.eqb x_body x_next (as_Z (arg 0 x)) h c)
+                  (result_after Z Z sx Z sigs x_const x_argval x_accval x_mval Z.eqb x_body x_next (as_Z (arg 1 x)) [] c)).
 
-Definition kind_code (k : kind) : Z := match k with KConst => 0 | KArg => 1 | KAccum => 2 end.
+Definition kind_code (k : kind) : Z := match k with KConst => 0 | KArg => 1 | KAccum => 2 | KMemo => 3 end.
 
 Definition sig_sx (s : sig) : sx :=
   L [I (s_id s); of_bool (s_public s); of_pairs (map (fun gk => (fst gk, kind_code (snd gk))) (s_fills s));
